@@ -41,7 +41,10 @@ type vfC08Case struct {
 	SeqHead string   `json:"sequence_first_60"`
 	deny    []bool
 	Hostile int `json:"hostile_fragment_sets"`
-	seq     []vfC08Item
+	// Shared: destination strings carry no session label, i.e. different sessions of the connection
+	// name literally the same destinations (cross-session pattern).
+	Shared bool `json:"destinations_shared_between_sessions,omitempty"`
+	seq    []vfC08Item
 }
 
 // vfC08Item is one datagram of the script: a plain message to one destination value, or a hostile
@@ -80,6 +83,15 @@ func vfC08Perms(n int) [][]int {
 	return out
 }
 
+// vfC08CacheSize is the size of the decision cache named by the property ("more distinct
+// destinations than the decision cache holds"); kept here so that this behavioural part does not
+// depend on the implementation's constant.
+const vfC08CacheSize = 256
+
+func vfC08SharedAddrOf(v int) string {
+	return fmt.Sprintf("d%d.vf:%d", v/4, 1000+v%4)
+}
+
 func vfC08AddrOf(v int, sid uint32) string {
 	return fmt.Sprintf("d%d.s%d.vf:%d", v/4, sid, 1000+v%4)
 }
@@ -103,7 +115,7 @@ func vfC08ValueOf(addr string) (int, bool) {
 }
 
 func vfC08Gen(r *rand.Rand, caseID string, idx int) *vfC08Case {
-	pats := []string{"uniform", "alternate", "fill-evict", "denied-first", "zipf", "mostly-denied-overflow", "allowed-first-overflow", "hostile-frags"}
+	pats := []string{"uniform", "alternate", "fill-evict", "denied-first", "zipf", "mostly-denied-overflow", "allowed-first-overflow", "hostile-frags", "cross-session"}
 	c := &vfC08Case{CaseID: caseID, Pattern: pats[idx%len(pats)]}
 	c.Values = 1 + r.Intn(600)
 	c.DenyPct = []int{5, 30, 50, 70, 95}[r.Intn(5)]
@@ -127,6 +139,9 @@ func vfC08Gen(r *rand.Rand, caseID string, idx int) *vfC08Case {
 		if c.Values < 2 {
 			c.Values = 2
 		}
+	case "cross-session":
+		c.Values = 8 + r.Intn(400)
+		c.DenyPct = []int{30, 50, 70}[r.Intn(3)]
 	}
 	c.deny = make([]bool, c.Values)
 	var denied, allowed []int
@@ -290,6 +305,77 @@ func vfC08Gen(r *rand.Rand, caseID string, idx int) *vfC08Case {
 		ns = 1
 		c.Sids = c.Sids[:1]
 		c.Len = len(c.seq)
+	} else if c.Pattern == "cross-session" {
+		// Several sessions of ONE connection name literally the same destinations. Hooked sessions
+		// open with a datagram addressed to a REJECTED destination D which the hook rewrites (the
+		// policy never sees D for them); plain sessions, whose socket exists because their first
+		// destination was allowed, then send to D as a later destination: D must not get a datagram.
+		// Also the other way round and mixed with ordinary traffic; decisions of one session must
+		// never count for another one in the wrong direction.
+		c.Shared = true
+		c.seq = nil
+		c.Sids = nil
+		nh, np := 1+r.Intn(3), 1+r.Intn(3)
+		for len(c.Sids) < nh+np {
+			sid := r.Uint32()
+			dup := false
+			for _, o := range c.Sids {
+				dup = dup || o == sid
+			}
+			if !dup {
+				c.Sids = append(c.Sids, sid)
+			}
+		}
+		c.Hooked = append([]uint32(nil), c.Sids[:nh]...)
+		ns = nh + np
+		push := func(sid, v int) { c.seq = append(c.seq, vfC08Item{Sid: sid, Value: v}) }
+		poison := make([]int, nh) // the rejected destination each hooked session opens with
+		for h := range poison {
+			poison[h] = anyOf(denied)
+		}
+		order := r.Intn(3)
+		openPlain := func() {
+			for pl := nh; pl < ns; pl++ {
+				push(pl, anyOf(allowed)) // first destination allowed: the socket exists
+				if order == 1 {
+					for _, d := range poison {
+						push(pl, d) // asked (and rejected) before any hooked session named it
+					}
+				}
+			}
+		}
+		openHooked := func() {
+			for h := 0; h < nh; h++ {
+				for try := 0; try < 4; try++ { // the rewritten destination is itself rejected 1 time in 3
+					push(h, poison[h])
+				}
+			}
+		}
+		if order == 2 {
+			openHooked()
+			openPlain()
+		} else {
+			openPlain()
+			openHooked()
+		}
+		for round := 0; round < 3+r.Intn(6); round++ {
+			for pl := nh; pl < ns; pl++ {
+				for _, d := range poison {
+					push(pl, d) // non-first destination, rejected by the policy
+					if r.Intn(3) == 0 {
+						push(pl, anyOf(allowed))
+					}
+				}
+			}
+			h := r.Intn(nh)
+			d2 := anyOf(denied)
+			push(h, d2) // a hooked session names further rejected destinations (they go to the rewritten one)
+			push(nh+r.Intn(np), d2)
+			for j := 0; j < r.Intn(30); j++ {
+				push(r.Intn(ns), r.Intn(c.Values))
+			}
+		}
+		c.Len = len(c.seq)
 	} else {
 		// interleave the sessions: the second one walks the same sequence shifted; hostile fragment
 		// sets are sprinkled in
@@ -306,7 +392,7 @@ func vfC08Gen(r *rand.Rand, caseID string, idx int) *vfC08Case {
 	for i := 0; i < len(one) && i < 60; i++ {
 		c.SeqHead += fmt.Sprintf("%d ", one[i])
 	}
-	if r.Intn(5) < 2 {
+	if c.Pattern != "cross-session" && r.Intn(5) < 2 {
 		c.Hooked = append(c.Hooked, c.Sids[r.Intn(ns)])
 	}
 	return c
@@ -350,14 +436,20 @@ func vfC08Run(t *testing.T, k *vfKit, c *vfC08Case, stackBuf []byte) {
 			sid := c.Sids[it.Sid]
 			no := i + 1
 			data := vfC07Payload(no, sid, 24+i%40)
-			full := &vfC07Msg{No: no, Sid: sid, Addr: vfC08AddrOf(it.Value, sid), Len: len(data), FragCount: 1}
+			addrOf := func(v int) string {
+				if c.Shared {
+					return vfC08SharedAddrOf(v)
+				}
+				return vfC08AddrOf(v, sid)
+			}
+			full := &vfC07Msg{No: no, Sid: sid, Addr: addrOf(it.Value), Len: len(data), FragCount: 1}
 			switch {
 			case it.Frags != nil:
 				n := len(it.Frags)
 				full.FragCount = n
-				full.Addr = vfC08AddrOf(it.Frags[0], sid)
+				full.Addr = addrOf(it.Frags[0])
 				for _, v := range it.Frags {
-					full.Addrs = append(full.Addrs, vfC08AddrOf(v, sid))
+					full.Addrs = append(full.Addrs, addrOf(v))
 				}
 				chunk := (len(data) + n - 1) / n
 				for _, f := range it.Order {
@@ -469,9 +561,21 @@ func vfC08Run(t *testing.T, k *vfKit, c *vfC08Case, stackBuf []byte) {
 				break
 			}
 		}
-		if len(distinct) > maxSessionACLCache && !s.override {
+		if len(distinct) > vfC08CacheSize && !s.override {
 			overflow = true
 			k.Count("ev_cache_overflow_sessions", 1)
+		}
+	}
+	if c.Shared {
+		nov := 0
+		for _, s := range w.socks {
+			if s.override {
+				nov++
+			}
+		}
+		if nov > 0 {
+			k.Count("ev_cross_session_cases_with_poisoning_hook", 1)
+			k.Nontrivial(fmt.Sprintf("x/%s/%d/%d/%d/%v", c.CaseID, c.Values, c.DenyPct, c.Len, c.Hooked))
 		}
 	}
 	if overflow {
